@@ -115,7 +115,14 @@ class Driver:
         args = arguments.UserArguments(sparsity_weight=lam, iteration_limit=5, label_switching_cost=beta, min_cluster_size=m,
                                        min_meaningful_covariance=0, num_clusters=K, num_processors=1, window_size=W,
                                        biased_covariance=biased)
-        s = model_state.ModelState.empty_model(args, self.data)
+        held = self.data
+        if (seed >> 9) & 1:
+            # the state holds a read-only window onto a buffer its creator can still write to (a frozen view, a memory map):
+            # "read-only" is a property of the view, not of the memory, so a deep copy has to copy it all the same
+            held = self.data.view()
+            held.flags.writeable = False
+            self.t.cls("state_holds_read_only_view_of_live_buffer")
+        s = model_state.ModelState.empty_model(args, held)
         labels = [int(v) for v in rng.integers(0, K, size=T)]
         s.point_labels = labels
         self._add(s, "deep")
@@ -156,6 +163,20 @@ class Driver:
             s2.point_labels = labels
             if [int(v) for v in s2.point_labels] != labels:
                 raise Violation("assigned labelling is not what the state reports")
+            # a labelling for another number of points (the model is being applied to a shorter / longer series) that starts
+            # like the one the state already holds: on a throw-away copy, so that the history keeps one length
+            s3 = s.shallow_copy()
+            s3.clusters = [c.deep_copy() for c in s3.clusters]
+            cur = [int(v) for v in s3.point_labels]
+            how = int(rng.integers(0, 4))
+            other = cur[:max(0, len(cur) - 1 - int(rng.integers(0, 5)))] if how < 2 else (cur + cur[:1 + int(rng.integers(0, 5))] if how == 2 else [])
+            s3.point_labels = list(other)
+            got = [int(v) for v in s3.point_labels]
+            if got != other:
+                raise Violation(f"a labelling of {len(other)} points was assigned to a state holding {len(cur)} labels (same leading labels); "
+                                f"the state now reports {len(got)} labels")
+            check_partition_snap(e2e.snap_state(s3), self.K, len(other), "state after assigning a labelling of another length")
+            self.t.cls("assigned_labelling_of_another_length")
             self._add(s2, "clusters")
             self.copied = True
             self._check_all("copy with fresh clusters + assign labels", target=i, new_index=len(self.states) - 1)
